@@ -391,7 +391,7 @@ func (g *dcGen) pkg(cur string, ndecl int) {
 			}
 		case k == 10 && len(g.prog.Decls)%3 == 2:
 			// a defined type over a builtin with hand-written methods (a handle, a counter): assignment is not its copy
-			h := &DcDecl{Pkg: cur, Name: g.name("H"), Kind: "alias", Under: &DcTE{K: "builtin", Name: "uint32"}, Custom: []string{"ptr", "val"}[len(g.prog.Decls)%2]}
+			h := &DcDecl{Pkg: cur, Name: g.name("H"), Kind: "alias", Under: &DcTE{K: "builtin", Name: "uint32"}, Custom: "ptr"} // both methods: with DeepCopy alone the generator would call a DeepCopyInto nobody writes (it generates none for a defined builtin) – outside the accepted inputs
 			g.add(h)
 			g.feats["hand-written-methods-on-defined-builtin"] = true
 			// … and its owner: the handle as a member, as slice element and as map value
@@ -416,9 +416,12 @@ func (g *dcGen) pkg(cur string, ndecl int) {
 	}
 }
 
-func GenDcProgram(r *RNG, arrays bool) (*DcProgram, []string) {
+// GenDcProgram: forcePlain (optional) asks for the "plain universe" shape with the main package under a path that sorts
+// after its dependency although its name sorts before: every eighth program of a run has it, whatever the dice say
+func GenDcProgram(r *RNG, arrays bool, forcePlain ...bool) (*DcProgram, []string) {
 	g := &dcGen{r: r, prog: &DcProgram{PkgTag: map[string]bool{}}, feats: map[string]bool{}, arrays: arrays}
-	if r.Chance(1, 6) {
+	forced := len(forcePlain) > 0 && forcePlain[0]
+	if r.Chance(1, 6) || forced {
 		// many plain types in the first package, few in the second, hardly any anonymous type in the universe
 		g.plain = true
 		g.feats["plain-universe"] = true
@@ -431,7 +434,7 @@ func GenDcProgram(r *RNG, arrays bool) (*DcProgram, []string) {
 		} else {
 			g.pkg("dep", 1+r.Intn(6))
 		}
-		if r.Bool() {
+		if r.Bool() || forced {
 			// the package processed first (by import path) has the names that sort last (by directory name)
 			g.prog.MainPath = "example.com/m/z/app"
 			g.feats["path-order-differs-from-name-order"] = true
@@ -1115,7 +1118,7 @@ func DeepCopyProperty(impl DcImpl) Property {
 			n := c.Scale(64, 1500)
 			var batch []PCase
 			for i := 0; i < n; i++ {
-				prog, feats := GenDcProgram(r, DcArraysOfReferences)
+				prog, feats := GenDcProgram(r, DcArraysOfReferences, i%8 == 3)
 				ls := []string{Line("dc", "reset", prog.Main())}
 				for _, pk := range []string{"dep", "p"} {
 					if pk == "dep" && !prog.HasDep {
